@@ -80,8 +80,11 @@ Init == /\ hist = <<>>
 Next == \E c \in Cmds : Exec(c)
 Spec == Init /\ [][Next]_vars
 (* for -simulate: one randomly drawn command per kind, so that behaviours mix the kinds evenly *)
-Kinds == {"annotate", "download", "download-all", "lint", "spdx"}
-GenNext == \E k \in Kinds : \E c \in {RandomElement({x \in Cmds : x.kind = k /\ Sensible(x)})} : Exec(c)
+Kinds == {"annotate", "annotate-everything", "download", "download-all", "lint", "spdx"}
+GenPool(k) == IF k = "annotate-everything"            \* the tutorial's step: every file gets a holder and one licence
+              THEN {AnnotateCmd(Files, TRUE, {x}) : x \in Lics}
+              ELSE {x \in Cmds : x.kind = k /\ Sensible(x)}
+GenNext == \E k \in Kinds : \E c \in {RandomElement(GenPool(k))} : Exec(c)
 
 (* ------------------------------------------------------------------ laws *)
 (* no command ever removes a declaration or a licence text *)
